@@ -883,22 +883,58 @@ def check_line_numbers(chk, ix):
                 chk.fail(Finding("P3", f.fullname, "multiline_start not from self.line",
                                  "the doc-string start line is not taken from the current line at the opening quotes",
                                  file=f.file, line=f.lineno))
-    # line counting dominates every other statement of each line loop
+    # every line is counted - blank and skipped ones too: the line loops evaluated on a concrete text, Parser.action
+    # recording the line number it is called at
+    text = "Feature: x\n\n  # c\n  Scenario: y\n\n\n    Given z\n   \n    When w"
+    want = [(i + 1, ln) for i, ln in enumerate(text.splitlines()) if ln.strip()]
     for f in pc.methods.values():
-        for n in ast.walk(f.node):
-            if isinstance(n, ast.For) and "splitlines" in unparse(n.iter):
-                chk.instance("P3")
-                first = n.body[0] if n.body else None
-                ok = isinstance(first, ast.AugAssign) and unparse(first.target) == "self.line" and isinstance(first.op, ast.Add) \
-                    and unparse(first.value) == "1"
-                if ok:
-                    chk.ok("P3", {"construct": "line loop in " + f.name, "first_statement": "self.line += 1"},
-                           nontrivial_key="loop " + f.name)
-                else:
-                    chk.fail(Finding("P3", f.fullname, "line loop does not count first",
-                                     "in the line loop of %s the line counter is not incremented before everything else "
-                                     "(blank or skipped lines would not be counted)" % f.name,
-                                     file=f.file, line=n.lineno, stmt=norm_stmt(n)))
+        if not any(isinstance(n, ast.For) and "splitlines" in unparse(n.iter) for n in ast.walk(f.node)):
+            continue
+        chk.instance("P3")
+        seen = []
+
+        def action(i, s_, a, k, n_):
+            seen.append((s_.obj(a[0]).fields.get("line"), a[1]))
+            return [(s_, "val", None)]
+
+        def reset(i, s_, a, k, n_):
+            s_.wobj(a[0]).fields.update({"line": 0, "table": None, "state": EnumVal("State", "INIT"), "statement": None, "filename": None})
+            return [(s_, "val", None)]
+        noop = lambda i, s_, a, k, n_: [(s_, "val", None)]      # noqa: E731
+        def build_scn(i, s_, a, k, n_):
+            s_.wobj(a[0]).fields["statement"] = s_.alloc(HObj("ScnTok", {"steps": ()}, open=True))
+            return [(s_, "val", None)]
+        it = Interp(ix, stubs={"Parser.action": action, "Parser.reset": reset, "Parser._build_scenario_statement": build_scn,
+                               "Parser.action_table": noop, "model.Scenario": lambda i, s_, a, k, n_: [(s_, "val", s_.alloc(HObj("ScnTok", {"steps": ()}, open=True)))],
+                               "Scenario": lambda i, s_, a, k, n_: [(s_, "val", s_.alloc(HObj("ScnTok", {"steps": ()}, open=True)))]},
+                    name="line loop of " + f.name)
+        it.int_sat = 1000
+        it.list_cap = 100
+        st = State()
+        st.frames = []
+        me = st.alloc(HObj(pc, {"line": 0, "language": "en", "state": EnumVal("State", "INIT"), "table": None, "filename": None,
+                                "keywords": st.alloc(HObj("dict", kind="dict", items=[("scenario", st.alloc(HObj("list", kind="list", items=["Scenario"])))])),
+                                "statement": None, "feature": None}, label="parser"))
+        params = [p_.arg for p_ in f.node.args.args[1:]]
+        known = {"text": text, "filename": "x.feature", "initial_state": None}
+        if any(p_ not in known for p_ in params):
+            raise AnalysisError("line loop in %s: unexpected parameters %s" % (f.fullname, params))
+        try:
+            outs = it.call_function(st, f, [known[p_] for p_ in params], {}, None, self_val=me)
+        except AnalysisError as e:
+            raise AnalysisError("line loop of %s is not evaluable on a concrete text: %s" % (f.fullname, e))
+        chk.absorb(it)
+        if len(outs) != 1 or outs[0][1] != "val":
+            raise AnalysisError("line loop of %s is not evaluable on a concrete text: %r" % (f.fullname, [(k, v) for _, k, v in outs][:3]))
+        # parse_steps runs the text twice (its own loop, then _parse_loop): each pass must number the lines alike
+        passes = [seen[i:i + len(want)] for i in range(0, len(seen), max(1, len(want)))]
+        if seen and all(p_ == want for p_ in passes):
+            chk.ok("P3", {"construct": "line loop in " + f.name, "action called at": [ln for ln, _ in want]}, nontrivial_key="loop " + f.name)
+        else:
+            chk.fail(Finding("P3", f.fullname, "line loop miscounts",
+                             "in %s the lines %r are handed to the parser's action with the line numbers %s; expected %s (every line of the "
+                             "text counts, blank ones too)" % (f.name, [t for _, t in want], [ln for ln, _ in seen], [ln for ln, _ in want]),
+                             file=f.file, line=f.lineno, stmt="def " + f.name))
     chk.require_instances("P3", 12)
     chk.require_instances("E4", 8)
 
